@@ -75,8 +75,15 @@ def isStakingOp : Op → Bool
   | .undelegate .. => true
   | _ => false
 
+/-- a new model is created for a data id that still has an unfinished order of an earlier
+    incarnation (its model was terminated while that order was in flight): finding F18 -/
+def clsOrphanOrder (pre : State) : Op → Bool
+  | .store m => (pre.getMeta m.p.dataId).isNone && pre.orders.any (fun o => o.dataId = m.p.dataId && o.status ≠ OrderCompleted)
+  | _ => false
+
 def classOf (pre : Sys) (op : Op) : String :=
-  if clsStaleGlobal pre && isStakingOp op then "stale-global"
+  if clsOrphanOrder pre.st op then "orphan-order"
+  else if clsStaleGlobal pre && isStakingOp op then "stale-global"
   else if clsMigrateRenew pre.st op then "migrate-renew" else "none"
 
 /-! ### C09: which data models may a request change -/
